@@ -68,7 +68,10 @@ def J(id, entry, props, enforce=None, replace=(), loops=False, unwind=None, unwi
          'unwind': unwind, 'unwind_reason': unwind_reason, 'props': props, 'defines': DEFS}
     j.update(kw); JOBS.append(j); return j
 TYPES_PRELUDE = ['vec_bits.h', 'vec_ans.h', 'core_types.h', 'ans_types.h']
-COSIM = False
+COSIM = True
+NATIVE_SOURCES = ['src/draco/compression/bit_coders/direct_bit_encoder.cc', 'src/draco/compression/bit_coders/direct_bit_decoder.cc', 'src/draco/compression/bit_coders/rans_bit_encoder.cc', 'src/draco/compression/bit_coders/rans_bit_decoder.cc']
+NATIVE_DEFS = ['-DRANS_P=12']
+NATIVE_SLICE_PRE = 'extern uint32_t ghost_rem, ghost_sym; extern int ghost_k;\n#define ANS_TOP (4096u * 256u)\n'
 
 SHL1 = (r'arithmetic overflow on signed shl in 1 << ', 'C-vs-C++ difference: `1 << 31` (int) sets the sign bit; undefined in C11, defined in C++11 and later (CWG 1457). The shift-distance check stays enabled.')
 J('direct.DecodeNextBit.contract', 'h_enf_DirectBitDecoder_DecodeNextBit', ['C17', 'C02'], enforce='DirectBitDecoder_DecodeNextBit', ignore=[SHL1])
